@@ -173,10 +173,17 @@ package cmap
 
 // decodeFormat6 (trimmed table mapping): total on arbitrary bytes; the glyph
 // array is only read inside the length announced by the header.
+// Format 6 (trimmed table mapping): code firstCode+i maps to glyphIdArray[i]
+// for 0 <= i < entryCount; glyph 0 means "not mapped".
 //@ func decodeFormat6(data []byte, code2rune func(c int) rune) (sub Subtable, err error)   props: C02 C09
-//@   ensures err == nil ==> sub != nil
+//@   any c0 int
+//@   let isUni = old(code2rune == nil); fc = be16(old(data), 6); cnt = be16(old(data), 8)
+//@   ensures err == nil ==> sub != nil && is(sub, Format4)
+//@   ensures err == nil && isUni && fc <= c0 && c0 < fc + cnt && be16(old(data), 10 + 2*(c0 - fc)) != 0 ==> has(sub.(Format4), c0) && sub.(Format4)[c0] == be16(old(data), 10 + 2*(c0 - fc))
+//@   modifies nothing
 //@   loop 0
-//@     invariant 0 <= i && i <= count && len(data) == 2*count && res != nil && code2rune != nil
+//@     invariant 0 <= i && i <= count && len(data) == 2*count && res != nil && fresh(res) && code2rune != nil && (isUni ==> code2rune == unicode) && firstCode == fc && count == cnt && ref(data) == ref(old(data)) && off(data) == off(old(data)) + 10
+//@     invariant isUni && fc <= c0 && c0 < fc + i && be16(old(data), 10 + 2*(c0 - fc)) != 0 ==> has(res, c0) && res[c0] == be16(old(data), 10 + 2*(c0 - fc))
 //@     decreases count - i
 
 // Format 0 (byte encoding table): glyph 0 for every code outside 0..255
